@@ -73,6 +73,8 @@ def gen_cases(tier, seed):
         if k % 8 in (1, 6) and not case.get("remesh"):
             # the Device object was solved before with other options (pinning toggled), optionally moved in place and back
             case["history"] = ["used", "used_moved"][(k // 8) % 2 if k % 8 == 1 else 1 - (k // 8) % 2]
+        if k % 8 == 2 and not case.get("remesh"):
+            case["history"] = "layer_edited"  # material parameters of the same Device object swept between solves
         cases.append(case)
     nweak = 3 if tier == "quick" else 16
     for k in range(nweak):
@@ -158,6 +160,13 @@ def run_case(spec):
                            "units": [spec["device"].get("length_units"), spec["options"].get("current_units")]}})
         elif isinstance(exc, RuntimeError) and ("failed to converge" in str(exc)):
             out["counters"]["runs_ending_in_nonconvergence"] = 1
+        elif isinstance(exc, ValueError) and "terminal" in str(exc).lower() and cur.get("kind", "none") != "none":
+            # every generated assignment is balanced and names only terminals of the device (terminals that carry nothing may be
+            # left out by a callable): any rejection of it is a refusal of a well-posed problem
+            out["violations"].append({
+                "kind": "balanced_currents_rejected", "mechanism": "balanced_currents_rejected",
+                "detail": {"kind": cur.get("kind"), "error": str(exc)[:200], "terminals": [t["name"] for t in spec["device"].get("terminals", [])],
+                           "first_phase": (cur.get("phases") or [cur.get("values")])[0]}})
         else:
             out["status"] = "harness_error"
             out["error"] = "unexpected exception in C01 workload: " + repr(exc)[:300]
